@@ -215,6 +215,33 @@ Section Reg.
       + destruct (B2 x P) as [Q|Q]; auto.
       + auto.
   Qed.
+
+  (* ... and nothing is forgotten: the object keeps its names, and the names already in the master
+     file (results of earlier runs, possibly over a different grid) are merged in *)
+  Lemma run_registry_keeps hdd fl l st st' ev out :
+    legal hdd fl -> run hdd fl None l st = (st', ev, out) ->
+    (forall x, In x (snames st) -> In x (snames st')) /\
+    (forall x, In x (dnames st) -> In x (dnames st')) /\
+    (hdd = true -> forall ms md, master st = Some (ms, md) ->
+       (forall x, In x ms -> In x (snames st')) /\ (forall x, In x md -> In x (dnames st'))).
+  Proof.
+    intros Hleg H. apply run_inv in H. rewrite (legal_not_rejected _ _ Hleg) in H.
+    destruct H as [[H _]|[_ [c [s [E Hs]]]]]; [discriminate|].
+    pose proof (run_tasks_no_stop fitf predf hdd fl (proj2 Hleg) l (st, 0, 0)) as Hrun.
+    rewrite E in Hrun. cbn in Hrun. subst s.
+    destruct Hs as [[_ [_ ->]]|[[Hs _]|[Hs _]]]; try discriminate.
+    destruct (run_tasks_reg hdd fl None (proj1 Hleg) _ _ _ _ _ E) as [[A1 A2] _].
+    destruct (run_tasks_safe fitf predf _ _ _ _ _ _ _ _ E) as [Hm _].
+    unfold cstore in *. cbn [fst] in A1, A2, Hm. set (s1 := fst (fst c)) in *.
+    assert (Hsave : names_le s1 (save hdd s1)).
+    { unfold save. destruct hdd; [|apply names_le_refl].
+      destruct (master s1) as [[ms md]|]; split; intros x Hx; cbn;
+        try (apply merge_names_in; left); exact Hx. }
+    destruct Hsave as [S1 S2].
+    split; [intros x Hx; apply S1, A1, Hx|]. split; [intros x Hx; apply S2, A2, Hx|].
+    intros -> ms md Hmas. unfold save. rewrite Hm, Hmas. cbn.
+    split; intros x Hx; apply merge_names_in; right; exact Hx.
+  Qed.
 End Reg.
 
 (* ============================================================================================ *)
